@@ -136,6 +136,46 @@ def pat_bindings(p, prefix=()):
             yield from pat_bindings(s, prefix)
 
 
+def const_str(v):
+    """Decode the printed value of a constant pattern: '"abc"' or 'Branch([97_u8, ..]): str' -> 'abc'; else None."""
+    import re
+    if v.startswith('"') and v.endswith('"'):
+        return v[1:-1]
+    m = re.match(r"Branch\(\[(.*)\]\): str$", v)
+    if m:
+        try:
+            return bytes(int(x.strip().split("_")[0]) for x in m.group(1).split(",") if x.strip()).decode("utf8", "replace")
+        except ValueError:
+            return None
+    return None
+
+
+def pat_strings(p, out=None):
+    """All string constants mentioned by pattern p."""
+    out = [] if out is None else out
+    if p.get("k") == "Const":
+        s = const_str(p["v"])
+        if s is not None:
+            out.append(s)
+    if "sub" in p:
+        pat_strings(p["sub"], out)
+    for s in p.get("subs", []):
+        pat_strings(s["p"] if "p" in s else s, out)
+    return out
+
+
+def lit_str(e):
+    """String literal value of a Lit node (through to_owned/into/borrow wrappers), else None."""
+    for n in walk(e):
+        if n.get("k") == "Lit" and n["v"].startswith('"'):
+            import ast as _ast
+            try:
+                return _ast.literal_eval(n["v"])
+            except Exception:
+                return n["v"][1:-1]
+    return None
+
+
 def pat_variants(p):
     """Set of (adt, variant) mentioned at the top of pattern p (through Or/Deref/Bind)."""
     k = p.get("k")
